@@ -71,6 +71,10 @@ class ItextGen:
 
     def text(self, dyn=False):
         s = self.rng.choice(TEXTS)
+        if s != "-" and self.rng.random() < 0.7:
+            # distinct marker texts: a value shown under the wrong language / id / form is noticed
+            self.counter_txt = getattr(self, "counter_txt", 0) + 1
+            s = f"{s}~{self.counter_txt}"
         if dyn:
             s = s + " ${q0}" + self.rng.choice(["", " t"])
         return s
@@ -449,6 +453,7 @@ def observe(xform: str) -> dict:
                 "default": t.get("default"),
                 "ids": [x.get("id") for x in t.findall("x:text", NS)],
                 "forms": [[v.get("form") for v in x.findall("x:value", NS)] for x in t.findall("x:text", NS)],
+                "values": [["".join(v.itertext()) for v in x.findall("x:value", NS)] for x in t.findall("x:text", NS)],
             })
     body_refs, bind_refs, item_ids = [], [], []
     for el in body.iter():
